@@ -99,6 +99,9 @@ type Check struct {
 	Stall time.Duration
 	// Confirm is the budget of the stage-2 re-run of a stalled case alone (default 60s).
 	Confirm time.Duration
+	// ChildEnv, if set, adds environment variables for the child process that runs the batch starting at case idx (what a
+	// process reads once at start - GOMAXPROCS, locale, time zone - is part of the space of executions).
+	ChildEnv func(idx int) []string
 	// Exhaustive reports whether the tier enumerates a finite space completely.
 	Exhaustive func(tier string) bool
 	// InProcess: cases are executed by goroutines of the parent (process-level checks whose "code under test" is an exec'd emulator).
